@@ -401,7 +401,7 @@ class SeriesVal:
     @property
     def dtype(self):
         if self.dtype_ is None:
-            self.dtype_ = SAny(name="dtype")
+            self.dtype_ = DTypeVal(name="dtype")
         return self.dtype_
 
     @property
@@ -444,6 +444,23 @@ def view_len(v):
     j = _i()
     cur().assume((c.z == 0) == z3.Not(z3.Exists([j], v.sel(j))))
     return c
+
+
+class DTypeVal(SAny):
+    """a pandas/numpy dtype object: opaque, except for `.kind` (a one-character string: any of numpy's kind codes - the
+    masked extension dtypes Int64/boolean report 'i'/'b' too and CAN hold nulls) and comparison with python types"""
+
+    def __init__(self, name="dtype"):
+        super().__init__(name=name)
+        self._kind = None
+
+    @property
+    def kind(self):
+        if self._kind is None:
+            k = core.sym_str("dtype.kind")
+            cur().assume(SBool(z3.Length(k.z) == 1))
+            self._kind = k
+        return self._kind
 
 
 class _Loc:
